@@ -322,7 +322,7 @@ def run_impl(w: World, calls):
         # a circuit thawed from the frozen view belongs to the caller: editing it changes nothing anybody else sees
         fz = circ.freeze()
         thaw = fz.unfreeze(copy=False)
-        thaw.append(cirq.X(cirq.NamedQubit('probe')))
+        thaw.append(cirq.X(cirq.LineQubit(99)))
         checks['thawed_copy_is_private:unfreeze'] = (fz.unfreeze(), fresh)
         checks['thawed_copy_is_private:unfreeze(copy=False)'] = (fz.unfreeze(copy=False), fresh)
         checks['thawed_copy_is_private:frozen*2'] = ((fz * 2).unfreeze(), fresh * 2)
